@@ -153,10 +153,14 @@ def cases(tier, seed):
             i += 1
     # interleave so that shards get a similar mix (GP cases are the expensive ones)
     random.Random(seed * 31 + 1).shuffle(out)
-    # ---- ENGINE B HOOK ---------------------------------------------------------------------------
-    # Engine B of DESIGN (real Tuner.run with a failing backend, max_failures 0-5, external stops) is
-    # built separately. Its builder appends case specs carrying "engine": "B" here and dispatches them
-    # at the top of run_case(); every spec generated by this module is an engine-A spec (no "engine" key).
+    # ---- ENGINE B: real Tuner.run on the scripted-process / simulator backends with failing jobs and jobs
+    # stopped from outside the scheduler (also after a pause and resume); the trace automaton of C01 decides
+    # "the scheduler is notified once per failure" (stv/props/c01.py check_trace)
+    nb = 240 if tier == "quick" else 5000
+    kinds_b = ["hb_promotion", "sync_hb", "hb_stopping", "fifo_random", "hb_pasha", "median", "hb_cost_promotion", "fifo_bo"]
+    for i in range(nb):
+        out.append({"engine": "B", "seed": seed * 7129 + i * 5 + 4, "kind": kinds_b[i % len(kinds_b)],
+                    "backend": "proc" if i % 4 else "sim"})
     return out
 
 
@@ -183,6 +187,9 @@ def floors(tier):
         "decided:sync_rung_completed_with_failed_slot": 40 * k,
         "scenarios_with_2+_failures": 300 * k,
         "scenarios_with_3_failures": 60 * k,
+        "B:runs": 200 * k,
+        "B:failures_notified": 60 * k,
+        "B:external_stops_notified": 40 * k,
     })
     return f
 
@@ -1294,8 +1301,57 @@ def _adapter(o, p, spec):
     return MoashaAdapter(o, p, spec)
 
 
+def run_engine_b(spec):
+    """Real Tuner runs with failures / external stops; decided by the C01 trace automaton."""
+    import random as _r
+
+    from stv import simrun
+    from stv.props import c01
+
+    o = Obs()
+    sp = {"seed": spec["seed"], "kind": spec["kind"], "backend": spec["backend"]}
+    p = c01.expand(sp)
+    rng = _r.Random(spec["seed"] + 17)
+    plan = {f"{rng.randint(0, 8)}:{rng.choice([0, 0, 1, 1])}": rng.randint(0, 3) for _ in range(rng.randint(1, 3))}
+    if spec["backend"] == "proc":
+        p["delete_checkpoints"] = False
+        p["plan"].pop("fail", None)
+        p["plan"].pop("ext_stop", None)
+        p["plan"][rng.choice(["fail", "ext_stop", "ext_stop"])] = plan
+        r = simrun.ProcRun(p, spec["seed"])
+    else:
+        p["fail"] = plan
+        p["sjwd"] = True
+        r = simrun.SimRun(p, spec["seed"])
+    p["max_failures"] = 100
+    r.run()
+    if spec["backend"] == "proc":
+        r.cleanup()
+    o.count("B:runs")
+    n_fail = sum(1 for e in r.rec.events if e[1] == "s.on_trial_error.call")
+    o.count("B:on_trial_error_calls", n_fail)
+    if any(e[1] == "w.external_stop" for e in r.rec.events):
+        o.count("B:runs_with_external_stop")
+    if r.exc is not None and type(r.exc).__name__ != "LoopBoundExceeded":
+        msg = repr(r.exc)[:200]
+        tag = ":resume_of_non_paused_trial" if "Cannot resume trial_id" in msg else ""
+        o.violate("run_carries_on", f"B:tuner_run_raised:{type(r.exc).__name__}{tag}", {"error": msg, "kind": spec["kind"], "backend": spec["backend"]})
+    sub = Obs()
+    sig = c01.check_trace(sub, r.rec.events, p["n_workers"], True, spec["kind"], exc=r.exc)
+    for v in sub.violations:
+        o.violate(v["clause"], "B:" + v["mechanism"], v["detail"])
+    o.count("B:end_notifications_decided", sub.counters.get("decided:end_notifications", 0))
+    o.count("B:external_stops_notified", sub.counters.get("external_stops_notified", 0))
+    o.count("B:failures_notified", sub.counters.get("failures_notified", 0))
+    o.set_sig(("B", spec["kind"], sig), nontrivial=n_fail > 0)
+    o.sample = {"engine": "B", "kind": spec["kind"], "backend": spec["backend"], "on_trial_error_calls": n_fail,
+                "trace": ["%s%d" % s_ for s_ in sig[:25]]}
+    return o.result()
+
+
 def run_case(spec):
-    # ENGINE B HOOK: specs with spec.get("engine") == "B" are to be dispatched here (none are generated yet)
+    if spec.get("engine") == "B":
+        return run_engine_b(spec)
     o = Obs()
     p = expand(spec)
     label = kind_label(spec["kind"], p["searcher"] if spec["kind"] != "msr" else None)
